@@ -4,6 +4,12 @@
 import json, subprocess
 
 BUILT = {
+ "C19": ("exploration", "reference conversion (encoding/csv configured like the importer + independent type conversion) vs the real colDataTypes/doBatchInsert driven in-package (go test -overlay): event accounting in arrival order and stored rows read back",
+         "Held on the streams explored: all four destination types, mappings, separators, NULL markers, short records, bad quoting, unparsable / out-of-range numbers, oversized rows.",
+         "what a record is, is decided by encoding/csv; canonical number spellings only"),
+ "C20": ("exploration", "typed vs submitted statements compared as token sequences (real SQL tokenizer) on the real Terminal.ReadLine driven in-package (go test -overlay)",
+         "Held on the keystroke streams explored: 1-8 statements, line breaks at token boundaries, several statements per line, literals with semicolons / other quotes / spaces, three delivery modes incl. chunks that split UTF-8 sequences.",
+         "no line break inside a literal; lines under the terminal's 4096-rune buffer"),
  "C13": ("exploration", "(a) Go race detector on a -race build with the real flush timer and sleep-only handlers that park statements across > 2 ticks; (b) offline checker over a hook event log (goroutine ids): no foreign page/header write inside a statement's change window",
          "Held on the passes explored: every statement kind x placement (park at 2nd page change, inside the log append, at a cache miss; idle gaps), fresh and reloaded pages. Happens-before detection does not depend on the observed timing.",
          "parks span > 2 ticks; race-build handlers add no synchronisation; races outside the five statement kinds (e.g. USE opening a store) are recorded, not judged"),
